@@ -100,15 +100,15 @@ def _tr_items(items, where):
     return out
 
 
-def regex_fact(pattern, flags, method, where):
-    """-> Gallina term of type re_fact for `re.compile(pattern, flags).<method>(s)`"""
+def regex_parts(pattern, flags, where):
+    """-> (Gallina regex term of the anchor-free body, end anchor the pattern itself carries, anchored at start?)"""
     if not isinstance(pattern, str):
         raise Unsupported("%s: pattern is not a str" % where)
     if flags & ~re.UNICODE:
         raise Unsupported("%s: regex flags %r" % (where, re.RegexFlag(flags)))
     items = list(sre_p.parse(pattern, flags))
     anchored_start = False
-    if items and items[0] == (sre_c.AT, sre_c.AT_BEGINNING) or items and items[0] == (sre_c.AT, sre_c.AT_BEGINNING_STRING):
+    if items and items[0][0] is sre_c.AT and items[0][1] in (sre_c.AT_BEGINNING, sre_c.AT_BEGINNING_STRING):
         anchored_start = True
         items = items[1:]
     end = "EndNone"
@@ -120,17 +120,7 @@ def regex_fact(pattern, flags, method, where):
         else:
             raise Unsupported("%s: anchor %s" % (where, items[-1][1]))
         items = items[:-1]
-    if method == "match":
-        pass
-    elif method == "fullmatch":
-        end = "EndZ"       # fullmatch: the whole string, "$" before a final newline cannot help
-    elif method == "search":
-        if not anchored_start:
-            raise Unsupported("%s: .search() with a pattern not anchored by ^" % where)
-    else:
-        raise Unsupported("%s: regex method .%s()" % (where, method))
-    body = _seq(_tr_items(items, where))
-    return "{| re_body := %s; re_end := %s |}" % (body, end)
+    return _seq(_tr_items(items, where)), end, anchored_start
 
 
 # ---------------------------------------------------------------------------------------------
@@ -240,229 +230,11 @@ def _regex_call(node, mod, argname):
     return None
 
 
-# ---------------------------------------------------------------------------------------------
-# is_valid_field_name -> dtree
-
-class _FieldValidator:
-    def __init__(self, base):
-        self.base = base
-        self.fn = _fn_ast(base.is_valid_field_name)
-        a = self.fn.args
-        if [x.arg for x in a.args] != ["name", "check_reserved"] or a.vararg or a.kwarg or a.kwonlyargs or a.posonlyargs:
-            raise Unsupported("is_valid_field_name signature")
-        if len(a.defaults) != 1 or not (isinstance(a.defaults[0], ast.Constant) and isinstance(a.defaults[0].value, bool)):
-            raise Unsupported("is_valid_field_name: default of check_reserved")
-        self.default_check = a.defaults[0].value
-        self.regex = None
-        self.tree = self._tree(_body_wo_doc(self.fn))
-        if self.regex is None:
-            # no regex test at all: express as a regex that matches everything? no -- fail closed
-            raise Unsupported("is_valid_field_name does not test RE_VALID_FIELD_NAME")
-
-    def _cond(self, n):
-        if isinstance(n, ast.Name) and n.id == "check_reserved":
-            return "ACheckReserved"
-        if isinstance(n, ast.UnaryOp) and isinstance(n.op, ast.Not):
-            return "(ANot %s)" % self._cond(n.operand)
-        if isinstance(n, ast.BoolOp):
-            cs = [self._cond(v) for v in n.values]
-            k = "AAnd" if isinstance(n.op, ast.And) else "AOr"
-            t = cs[-1]
-            for x in reversed(cs[:-1]):
-                t = "(%s %s %s)" % (k, x, t)
-            return t
-        if isinstance(n, ast.Compare) and len(n.ops) == 1 and isinstance(n.left, ast.Name) and n.left.id == "name" \
-                and isinstance(n.comparators[0], ast.Name) and n.comparators[0].id == "RESERVED_FIELDS":
-            if isinstance(n.ops[0], ast.In):
-                return "AInReserved"
-            if isinstance(n.ops[0], ast.NotIn):
-                return "(ANot AInReserved)"
-        if isinstance(n, ast.Call) and isinstance(n.func, ast.Attribute) and n.func.attr == "startswith" \
-                and isinstance(n.func.value, ast.Name) and n.func.value.id == "name" and len(n.args) == 1 and not n.keywords \
-                and isinstance(n.args[0], ast.Constant) and n.args[0].value == "_":
-            return "AStartsUnderscore"
-        if isinstance(n, ast.Call) and _call_name(n) == "bool" and len(n.args) == 1 and not n.keywords:
-            return self._cond(n.args[0])
-        rc = _regex_call(n, self.base, "name")
-        if rc is not None:
-            if self.regex is not None and self.regex != rc:
-                raise Unsupported("is_valid_field_name tests two different regexes")
-            self.regex = rc
-            return "ARegexMatch"
-        raise Unsupported("is_valid_field_name: condition at line %d: %s" % (getattr(n, "lineno", 0), ast.dump(n)[:120]))
-
-    def _tree(self, stmts):
-        if not stmts:
-            return "(DRet false)"          # falls off the end: None, which callers treat as false
-        s, rest = stmts[0], stmts[1:]
-        if isinstance(s, ast.Pass):
-            return self._tree(rest)
-        if isinstance(s, ast.Return):
-            if s.value is None or (isinstance(s.value, ast.Constant) and s.value.value is None):
-                return "(DRet false)"
-            if isinstance(s.value, ast.Constant) and isinstance(s.value.value, bool):
-                return "(DRet %s)" % cbool(s.value.value)
-            return "(DIf %s (DRet true) (DRet false))" % self._cond(s.value)
-        if isinstance(s, ast.If):
-            return "(DIf %s %s %s)" % (self._cond(s.test), self._tree(list(s.body) + rest), self._tree(list(s.orelse) + rest))
-        raise Unsupported("is_valid_field_name: statement at line %d" % s.lineno)
-
-
-def _validator_call(node, default_check):
-    """`is_valid_field_name(x)` / `(x, c)` / `(x, check_reserved=c)` -> (argname, check_reserved) or None"""
-    if not (isinstance(node, ast.Call) and _call_name(node) == "is_valid_field_name"):
-        return None
-    if not node.args or not isinstance(node.args[0], ast.Name):
-        raise Unsupported("is_valid_field_name called on a non-name at line %d" % node.lineno)
-    check = default_check
-    extra = list(node.args[1:]) + [k.value for k in node.keywords if k.arg == "check_reserved"]
-    if len(extra) > 1 or any(k.arg != "check_reserved" for k in node.keywords):
-        raise Unsupported("is_valid_field_name call at line %d" % node.lineno)
-    if extra:
-        if not (isinstance(extra[0], ast.Constant) and isinstance(extra[0].value, bool)):
-            raise Unsupported("check_reserved is not a constant at line %d" % node.lineno)
-        check = extra[0].value
-    return node.args[0].id, check
-
-
-def _guard_raises(stmt, pred):
-    """`if not <pred-call>: raise ...`  (pred(node) -> truthy info)  -> info or None"""
-    if isinstance(stmt, ast.If) and not stmt.orelse and isinstance(stmt.test, ast.UnaryOp) and isinstance(stmt.test.op, ast.Not) \
-            and _is_raise_only(stmt.body):
-        return pred(stmt.test.operand)
-    return None
-
-
 DANGEROUS = ("exec", "eval", "compile", "__import__")
 
 
 def _contains_dangerous(node):
     return any(isinstance(c.func, ast.Name) and c.func.id in DANGEROUS for c in _calls(node))
-
-
-# ---------------------------------------------------------------------------------------------
-# _generate_record_class
-
-def grc_steps(base, fv):
-    fn = base._generate_record_class
-    fn = getattr(fn, "__wrapped__", fn)
-    node = _fn_ast(fn)
-    params = [a.arg for a in node.args.args]
-    if params[:2] != ["name", "fields"]:
-        raise Unsupported("_generate_record_class signature %s" % params)
-    steps = []
-    grc_check = None
-    type_re = None
-    name_rebound = False
-    for st in _body_wo_doc(node):
-        if _contains_dangerous(st):
-            steps.append("GExec")
-            continue
-        if "GExec" not in steps and _has_return(st):
-            raise Unsupported("_generate_record_class returns at line %d, before exec (statement order is no longer dominance)" % st.lineno)
-        # for _, fieldname in fields: if not is_valid_field_name(fieldname): raise
-        if isinstance(st, ast.For) and isinstance(st.iter, ast.Name) and st.iter.id == "fields" \
-                and isinstance(st.target, ast.Tuple) and len(st.target.elts) == 2 and all(isinstance(e, ast.Name) for e in st.target.elts):
-            namevar = st.target.elts[1].id
-            for k, inner in enumerate(st.body):
-                info = _guard_raises(inner, lambda n: _validator_call(n, fv.default_check))
-                if info and info[0] == namevar:
-                    # the model's step is "EVERY field name is checked": the loop must visit every field and reach the
-                    # check for each of them -- no break / continue / return / else, loop variable not rebound before
-                    # the check (fail closed otherwise)
-                    esc = _loop_escape(st)
-                    if esc is not None:
-                        raise Unsupported("_generate_record_class: the field-name validation loop has `%s` at line %d "
-                                          "(not every field is checked)" % esc)
-                    if st.orelse:
-                        raise Unsupported("_generate_record_class: the field-name validation loop has an else clause")
-                    for before in st.body[:k]:
-                        for n in ast.walk(before):
-                            if isinstance(n, ast.Name) and isinstance(n.ctx, ast.Store) and n.id == namevar:
-                                raise Unsupported("_generate_record_class: %s is rebound before it is checked" % namevar)
-                        if not isinstance(before, (ast.Expr, ast.Assign, ast.AnnAssign, ast.AugAssign, ast.Pass)):
-                            raise Unsupported("_generate_record_class: statement at line %d precedes the field-name check "
-                                              "inside the loop" % before.lineno)
-                    if grc_check is not None and grc_check != info[1]:
-                        raise Unsupported("_generate_record_class checks field names twice with different check_reserved")
-                    grc_check = info[1]
-                    steps.append("GCheckFieldNames")
-            continue
-        # ... RecordField(n, _type) for _type, n in fields ...
-        rf = [c for c in _calls(st) if _call_name(c) == "RecordField"]
-        if rf:
-            ok = False
-            for comp in ast.walk(st):
-                if isinstance(comp, (ast.ListComp, ast.GeneratorExp, ast.DictComp, ast.SetComp)) and len(comp.generators) == 1:
-                    g = comp.generators[0]
-                    if isinstance(g.iter, ast.Name) and g.iter.id == "fields" and isinstance(g.target, ast.Tuple) \
-                            and len(g.target.elts) == 2 and all(isinstance(e, ast.Name) for e in g.target.elts) and not g.ifs:
-                        tvar, nvar = g.target.elts[0].id, g.target.elts[1].id
-                        inner = [c for c in _calls(comp) if _call_name(c) == "RecordField"]
-                        if len(inner) == 1 and len(inner[0].args) == 2 and not inner[0].keywords \
-                                and all(isinstance(a, ast.Name) for a in inner[0].args) \
-                                and inner[0].args[0].id == nvar and inner[0].args[1].id == tvar:
-                            ok = True
-            if ok:
-                steps.append("GBuildRecordFields")
-            continue
-        info = _guard_raises(st, lambda n: _regex_call(n, base, "name"))
-        if info:
-            if name_rebound:
-                raise Unsupported("_generate_record_class: `name` is reassigned before the type-name check")
-            if type_re is not None and type_re != info:
-                raise Unsupported("_generate_record_class tests two different type-name regexes")
-            type_re = info
-            steps.append("GCheckTypeName")
-            continue
-        for n in ast.walk(st):
-            if isinstance(n, (ast.Assign, ast.AugAssign, ast.AnnAssign)):
-                tg = n.targets if isinstance(n, ast.Assign) else [n.target]
-                for t in tg:
-                    for nm in ast.walk(t):
-                        if isinstance(nm, ast.Name) and nm.id == "name":
-                            name_rebound = True
-                        if isinstance(nm, ast.Name) and nm.id == "fields" and "GExec" not in steps:
-                            raise Unsupported("_generate_record_class reassigns `fields` before exec")
-    if type_re is None:
-        # no type-name check at all: the model needs some regex; use one that the shape test rejects
-        type_re = (r"(?s:.)*", re.UNICODE | re.DOTALL, "nomatch")
-    return steps, (grc_check if grc_check is not None else fv.default_check), type_re
-
-
-
-# ---------------------------------------------------------------------------------------------
-# RecordField.__init__ and fieldtype
-
-def recordfield_facts(base, fv):
-    node = _fn_ast(base.RecordField.__init__)
-    params = [a.arg for a in node.args.args]
-    if params != ["self", "name", "typename"]:
-        raise Unsupported("RecordField.__init__ signature %s" % params)
-    check = None
-    check_at = ft_at = None
-    for i, st in enumerate(_body_wo_doc(node)):
-        if ft_at is None and _has_return(st):
-            raise Unsupported("RecordField.__init__ returns at line %d before fieldtype()" % st.lineno)
-        info = _guard_raises(st, lambda n: _validator_call(n, fv.default_check))
-        if info and info[0] == "name" and check_at is None:
-            check_at, check = i, info[1]
-        if ft_at is None and any(_call_name(c) == "fieldtype" for c in _calls(st)):
-            ft_at = i
-        for n in ast.walk(st):
-            if isinstance(n, ast.Assign) and check_at is None:
-                for t in n.targets:
-                    if isinstance(t, ast.Name) and t.id in ("name", "typename"):
-                        raise Unsupported("RecordField.__init__ rebinds %s before validating" % t.id)
-    if ft_at is None:
-        raise Unsupported("RecordField.__init__ does not call fieldtype()")
-    for c in _calls(_body_wo_doc(node)[ft_at]):
-        if _call_name(c) == "fieldtype" and not (len(c.args) == 1 and isinstance(c.args[0], ast.Name) and c.args[0].id == "typename"):
-            raise Unsupported("RecordField.__init__: fieldtype() is not called on typename")
-    before = check_at is not None and check_at < ft_at
-    # when the name is not checked here at all the model's step checks nothing: express as check_reserved
-    # irrelevant + validates_before false
-    return before, (check if check is not None else False)
 
 
 RESOLVERS = ("importlib.import_module", "getattr", "type", "__import__", "eval", "exec", "import_module")
@@ -633,25 +405,6 @@ def template_pieces(base):
     return out
 
 
-def template_use(base):
-    """the .format(...) call in _generate_record_class: keyword per hole -> how it is computed, as far as the render
-    model depends on it (name: the sanitised name; slots_tuple: tuple(all_fields.keys()); and the final
-    .replace("\\t", "    "))"""
-    fn = getattr(base._generate_record_class, "__wrapped__", base._generate_record_class)
-    node = _fn_ast(fn)
-    fmt = [c for c in _calls(node) if isinstance(c.func, ast.Attribute) and c.func.attr == "format"
-           and isinstance(c.func.value, ast.Name) and c.func.value.id == "RECORD_CLASS_TEMPLATE"]
-    if len(fmt) != 1 or fmt[0].args:
-        raise Unsupported("_generate_record_class: RECORD_CLASS_TEMPLATE.format(...) call")
-    kws = {k.arg: k.value for k in fmt[0].keywords}
-    if set(kws) != set(HOLES):
-        raise Unsupported("RECORD_CLASS_TEMPLATE.format keywords %s" % sorted(kws))
-    for k in ("name", "args", "init_code", "unpack_code", "field_types"):
-        if not (isinstance(kws[k], ast.Name) and kws[k].id == k):
-            raise Unsupported("RECORD_CLASS_TEMPLATE.format(%s=...) is not the local of that name" % k)
-    return True
-
-
 def code_constants(base):
     """the string constants of _generate_record_class that the render model takes as facts: the tail appended to
     init_code, and args / init_code / unpack_code of the keyword path"""
@@ -689,10 +442,15 @@ def to_str_fact(base):
     f = utils.to_str
     if getattr(base, "to_str", None) is not f or getattr(pk, "to_str", None) is not f:
         raise Unsupported("base.to_str / packer.to_str is not utils.to_str")
-    # RecordDescriptor.__init__ and the packer's descriptor branch must pass names through it
-    init = _fn_ast(base.RecordDescriptor.__init__)
-    if not any(_call_name(c) == "to_str" for c in _calls(init)):
-        raise Unsupported("RecordDescriptor.__init__ no longer converts names with to_str")
+    # names delivered as bytes are decoded (not refused as "not a str", not repr()'d) before they are validated
+    try:
+        d = base.RecordDescriptor(b"zq/tostr", [(b"string", b"x")])
+        if d.name != "zq/tostr" or tuple(d.get_field_tuples()) != (("string", "x"),):
+            raise Unsupported("RecordDescriptor does not decode names given as bytes with to_str")
+    except Unsupported:
+        raise
+    except Exception as e:
+        raise Unsupported("RecordDescriptor refuses names given as bytes: %r" % e)
     ok = True
     for s_ in ("", "a", "abc/def", "\u00e9", "a\n", "\udcff", "\U0001d41a", "x" * 300):
         r = f(s_)
@@ -722,31 +480,588 @@ def to_str_fact(base):
 
 
 # ---------------------------------------------------------------------------------------------
+# OBSERVATION: most facts are derived from what the code DOES on purpose-built probes; the ast recognisers above are
+# cross-checks (recognised and contradicting -> fail closed; spelling not recognised -> note in the generated file)
+
+class Contradiction(Unsupported):
+    pass
+
+
+_MISSING = object()
+OBS_ALPHABET = ["a", "Z", "0", "_", "/", "\n", "\r", "é", " ", "-"]
+
+
+def _strings_upto(n, alpha):
+    if n == 0:
+        return [""]
+    sub = _strings_upto(n - 1, alpha)
+    return [""] + [c + x for c in alpha for x in sub]
+
+
+class _ReProxy:
+    """stands in for a module-level compiled pattern: logs which pattern is asked about which string"""
+
+    def __init__(self, pat, tag, log):
+        self._pat, self._tag, self._log = pat, tag, log
+
+    def _call(self, meth, s, *a, **k):
+        self._log.append(("re", self._tag, meth, s))
+        return getattr(self._pat, meth)(s, *a, **k)
+
+    def match(self, s, *a, **k):
+        return self._call("match", s, *a, **k)
+
+    def search(self, s, *a, **k):
+        return self._call("search", s, *a, **k)
+
+    def fullmatch(self, s, *a, **k):
+        return self._call("fullmatch", s, *a, **k)
+
+    def __getattr__(self, name):
+        return getattr(self._pat, name)
+
+
+class Observer:
+    """flow.record.base with exec, is_valid_field_name, RecordField.__init__, RecordDescriptor.__init__, fieldtype,
+    importlib, getattr and the module-level compiled patterns replaced by logging stand-ins (restored by close())"""
+
+    def __init__(self, base):
+        import builtins
+        self.base = base
+        self.log = []
+        self._saved = {}
+        self._rf_depth = 0
+        obs = self
+        self.patterns = {k: v for k, v in vars(base).items() if isinstance(v, re.Pattern)}
+
+        def put(name, val):
+            self._saved.setdefault(name, base.__dict__.get(name, _MISSING))
+            setattr(base, name, val)
+        self._put = put
+
+        def spy_exec(code, *a, **k):
+            obs.log.append(("exec", code))
+            return builtins.exec(code, *a, **k)
+        put("exec", spy_exec)
+
+        self.orig_ivfn = base.is_valid_field_name
+        sig = inspect.signature(self.orig_ivfn)
+
+        def ivfn(*a, **k):
+            r = obs.orig_ivfn(*a, **k)
+            try:
+                ba = sig.bind(*a, **k)
+                ba.apply_defaults()
+                args = list(ba.arguments.values())
+            except TypeError:
+                args = [None, None]
+            obs.log.append(("ivfn", args[0], args[1] if len(args) > 1 else None, obs._rf_depth > 0, bool(r)))
+            return r
+        put("is_valid_field_name", ivfn)
+
+        self.orig_ft = base.fieldtype
+
+        def ft(path):
+            obs.log.append(("fieldtype", path))
+            return obs.orig_ft(path)
+        ft.__wrapped__ = getattr(self.orig_ft, "__wrapped__", self.orig_ft)
+        ft.cache_clear = getattr(self.orig_ft, "cache_clear", lambda: None)
+        put("fieldtype", ft)
+
+        self._rf_init = base.RecordField.__init__
+
+        def rf_init(self_, *a, **k):
+            obs._rf_depth += 1
+            obs.log.append(("rf_enter",) + tuple(a))
+            try:
+                return obs._rf_init(self_, *a, **k)
+            finally:
+                obs._rf_depth -= 1
+                obs.log.append(("rf_exit",))
+        base.RecordField.__init__ = rf_init
+
+        self._rd_init = base.RecordDescriptor.__init__
+
+        def rd_init(self_, *a, **k):
+            obs.log.append(("rd_init", id(self_)) + tuple(a))
+            return obs._rd_init(self_, *a, **k)
+        base.RecordDescriptor.__init__ = rd_init
+
+        for k, v in self.patterns.items():
+            put(k, _ReProxy(v, k, self.log))
+
+    def shadow_resolvers(self):
+        import builtins
+        obs = self
+        real = self.base.__dict__.get("importlib")
+
+        class Imp:
+            def __getattr__(self, name):
+                return getattr(real, name)
+
+            def import_module(self, name, *a, **k):
+                obs.log.append(("import", name))
+                return real.import_module(name, *a, **k)
+        if real is not None:
+            self._put("importlib", Imp())
+
+        def spy_getattr(*a):
+            obs.log.append(("getattr", a[1] if len(a) > 1 else None))
+            return builtins.getattr(*a)
+        self._put("getattr", spy_getattr)
+
+        def spy_type(*a, **k):
+            if len(a) == 3:
+                obs.log.append(("type", a[0]))
+            return builtins.type(*a, **k)
+        self._put("type", spy_type)
+
+    def unshadow_resolvers(self):
+        for name in ("importlib", "getattr", "type"):
+            if name in self._saved:
+                old = self._saved.pop(name)
+                if old is _MISSING:
+                    delattr(self.base, name)
+                else:
+                    setattr(self.base, name, old)
+
+    def close(self):
+        self.base.RecordField.__init__ = self._rf_init
+        self.base.RecordDescriptor.__init__ = self._rd_init
+        for name, old in self._saved.items():
+            if old is _MISSING:
+                try:
+                    delattr(self.base, name)
+                except AttributeError:
+                    pass
+            else:
+                setattr(self.base, name, old)
+        self._saved = {}
+
+    def construct(self, name, fields):
+        """RecordDescriptor(name, fields) -> (descriptor | None, exception | None, log of this call)"""
+        cc = getattr(self.base._generate_record_class, "cache_clear", None)
+        if cc:
+            cc()
+        start = len(self.log)
+        try:
+            d, err = self.base.RecordDescriptor(name, fields), None
+        except Exception as e:  # noqa: BLE001
+            d, err = None, e
+        return d, err, self.log[start:]
+
+
+def _end_from_probes(accepts_nl, accepts_tail):
+    if accepts_tail:
+        return "EndNone"
+    return "EndDollar" if accepts_nl else "EndZ"
+
+
+def _expected_match(pat, end, s):
+    return (pat.fullmatch(s) if end == "EndZ" else pat.match(s)) is not None
+
+
+def _check_end_against_pattern(end_obs, end_pat, where):
+    # "\Z" cannot behave like "$" or like no anchor; "$" cannot behave like no anchor; (fullmatch makes "$"/nothing
+    # behave like "\Z", that is fine)
+    order = {"EndZ": 0, "EndDollar": 1, "EndNone": 2}
+    if order[end_obs] > order[end_pat]:
+        raise Contradiction("%s: the pattern ends in %s but behaves like %s" % (where, end_pat, end_obs))
+
+
+def observe_field_validator(base, obs, notes):
+    """is_valid_field_name as an observed decision table over its four tests -> (dtree term, re_fact term)"""
+    f = obs.orig_ivfn
+    reserved = list(base.RESERVED_FIELDS)
+    # which compiled pattern does it consult?
+    start = len(obs.log)
+    obs.base.is_valid_field_name("zqprobe", True)
+    used = [e[1] for e in obs.log[start:] if e[0] == "re"]
+    if len(set(used)) == 1:
+        pat = obs.patterns[used[0]]
+    else:
+        pat = obs.patterns.get("RE_VALID_FIELD_NAME")
+        if pat is None:
+            raise Unsupported("is_valid_field_name: cannot tell which compiled pattern it uses")
+        notes.append("is_valid_field_name: pattern use not observed through the module attribute; RE_VALID_FIELD_NAME assumed, "
+                     "validated by the decision table")
+    body, end_pat, _ = regex_parts(pat.pattern, pat.flags, "field-name pattern")
+    for cr in (True, False):
+        if not f("a", cr):
+            raise Unsupported("is_valid_field_name('a') is false")
+    end = _end_from_probes(bool(f("a\n", True)), bool(f("a;", True)))
+    _check_end_against_pattern(end, end_pat, "field-name pattern")
+    battery = _strings_upto(3, OBS_ALPHABET) + reserved + [
+        "_x", "__", "_1", "_-", "a" * 300, "a" * 300 + "-", "class", "from", "ａ", "a\n", "_a\n", "a\n\n", "\na", "a;b", "ab;",
+        "_source2", "x_source", "a\x00", "\udcff", "A9_z", "_é"] + ["_" + x for x in _strings_upto(2, OBS_ALPHABET)]
+    cells = {}
+    for s_ in battery:
+        for cr in (True, False):
+            try:
+                out = bool(f(s_, cr))
+            except Exception as e:  # noqa: BLE001
+                raise Unsupported("is_valid_field_name(%r, %r) raises %r" % (s_, cr, e))
+            res = s_ in base.RESERVED_FIELDS
+            key = (cr, True, None, None) if res else (cr, False, s_.startswith("_"), _expected_match(pat, end, s_))
+            cells.setdefault(key, {}).setdefault(out, s_)
+    for key, outs in cells.items():
+        if len(outs) != 1:
+            raise Unsupported("is_valid_field_name is not a function of (check_reserved, reserved?, leading underscore?, pattern "
+                              "match?): %r gives %r" % (key, outs))
+    need = [(cr, True, None, None) for cr in (True, False)] + [(cr, False, u, m) for cr in (True, False) for u in (True, False) for m in (True, False)]
+    for key in need:
+        if key not in cells:
+            raise Unsupported("is_valid_field_name: no probe for case %r" % (key,))
+    o = {k: cbool(next(iter(v))) for k, v in cells.items()}
+
+    def sub(cr):
+        return "(DIf AStartsUnderscore (DIf ARegexMatch (DRet %s) (DRet %s)) (DIf ARegexMatch (DRet %s) (DRet %s)))" % (
+            o[(cr, False, True, True)], o[(cr, False, True, False)], o[(cr, False, False, True)], o[(cr, False, False, False)])
+    tree = "(DIf AInReserved (DIf ACheckReserved (DRet %s) (DRet %s)) (DIf ACheckReserved %s %s))" % (
+        o[(True, True, None, None)], o[(False, True, None, None)], sub(True), sub(False))
+    return tree, "{| re_body := %s; re_end := %s |}" % (body, end)
+
+
+def observe_generate(base, obs, notes):
+    """what RecordDescriptor(name, fields) does, in which order, on benign and on failing definitions
+    -> (gsteps, grc_check_reserved, rf_check_reserved, rf_validates_before_fieldtype, re_fact of the type-name pattern)"""
+    n = [0]
+
+    def fresh():
+        n[0] += 1
+        return "zq/obs%d" % n[0]
+    benign = [
+        [("string", "pa")], [("string", "pa"), ("varint", "pb"), ("string[]", "pc")],
+        [("string", "from"), ("varint", "pb"), ("string", "pc")], [("string", "pa"), ("varint", "class"), ("string", "pc")],
+        [("string", "pa"), ("varint", "pb"), ("string", "is")], [("string", "None"), ("varint", "import"), ("string", "pc"), ("uri", "pd")],
+        [],
+    ]
+    grc_checks, rf_checks = set(), set()
+    outside_seen = False
+    rf_before = True
+    type_tags = set()
+    type_before_exec = True
+    for fields in benign:
+        name = fresh()
+        d, err, log = obs.construct(name, fields)
+        if err is not None:
+            raise Unsupported("a benign definition %r is refused: %r" % (fields, err))
+        execs = [i for i, e in enumerate(log) if e[0] == "exec"]
+        if len(execs) != 1:
+            raise Unsupported("a benign definition led to %d exec calls" % len(execs))
+        x = execs[0]
+        declared = [nm for _, nm in fields]
+        outside = [e for e in log[:x] if e[0] == "ivfn" and not e[3]]
+        if outside:
+            outside_seen = True
+            if [e[1] for e in outside] != declared:
+                raise Contradiction("_generate_record_class checks the field names %r of the declared %r before exec (not every field "
+                                    "is checked)" % ([e[1] for e in outside], declared))
+            grc_checks |= {e[2] for e in outside}
+        rfs = [e[1:] for e in log[:x] if e[0] == "rf_enter"]
+        want = [(nm, t) for t, nm in fields]
+        if [r for r in rfs if r in want] != want:
+            raise Contradiction("RecordField is built for %r, declared %r" % (rfs, want))
+        # inside every RecordField: name check, then fieldtype
+        i = 0
+        while i < x:
+            if log[i][0] == "rf_enter":
+                j = i
+                while log[j][0] != "rf_exit":
+                    j += 1
+                inner = log[i + 1:j]
+                iv = [k for k, e in enumerate(inner) if e[0] == "ivfn"]
+                ftc = [k for k, e in enumerate(inner) if e[0] == "fieldtype"]
+                if not ftc:
+                    raise Unsupported("RecordField.__init__ does not call fieldtype()")
+                if not iv or iv[0] > ftc[0] or inner[iv[0]][1] != log[i][1]:
+                    rf_before = False
+                rf_checks |= {inner[k][2] for k in iv}
+                i = j
+            i += 1
+        res = [e for e in log if e[0] == "re" and e[3] == name]
+        for e in res:
+            type_tags.add(e[1])
+        if res and log.index(res[0]) > x:
+            type_before_exec = False
+    if len(grc_checks) > 1 or len(rf_checks) > 1:
+        raise Unsupported("is_valid_field_name is called with varying check_reserved: %r / %r" % (grc_checks, rf_checks))
+
+    # failing definitions: an Exception, and exec is never reached
+    def refused_before_exec(name, fields):
+        d, err, log = obs.construct(name, fields)
+        return err is not None and not any(e[0] == "exec" for e in log)
+
+    def at_positions(bad_pair):
+        out = []
+        for k in range(3):
+            for kw_at in (None, 0, 1, 2):
+                fs = [("string", "pa"), ("varint", "pb"), ("string", "pc")]
+                if kw_at is not None and kw_at != k:
+                    fs[kw_at] = ("string", "from")
+                fs[k] = bad_pair
+                out.append(fs)
+        out.append([bad_pair])
+        return out
+    bad_names = ["a-b", "_x", "1a", "", "a b", "é", "a.b", "__"]
+    names_ok = all(refused_before_exec(fresh(), fs) for b in bad_names for fs in at_positions(("string", b)))
+    reserved_refused = [refused_before_exec(fresh(), fs) for r in base.RESERVED_FIELDS for fs in at_positions(("string", r))]
+    types_ok = all(refused_before_exec(fresh(), fs) for b in ["nosuchtype", "os.system", "string[][]", "", "net", "String", "string "]
+                   for fs in at_positions((b, "px")))
+    bad_type_names = ["1a", "a//b", "a-b", "_a", "é/x", "a/", "/a", "a b", "a/_b"]
+    tname_ok = all(refused_before_exec(b, [("string", "pa")]) and refused_before_exec(b, []) for b in bad_type_names)
+
+    steps = []
+    if outside_seen:
+        grc_check = next(iter(grc_checks))
+        if names_ok:
+            steps.append("GCheckFieldNames")
+    else:
+        # the check is not made through the module-level name is_valid_field_name: decide by behaviour alone
+        notes.append("_generate_record_class: calls of is_valid_field_name not observed; field-name step decided by behaviour")
+        grc_check = all(reserved_refused)
+        if names_ok and grc_check:
+            steps.append("GCheckFieldNames")
+    if grc_check and not all(reserved_refused):
+        raise Contradiction("a reserved field name reaches exec although is_valid_field_name(..., check_reserved=True) is called")
+    rf_check = next(iter(rf_checks)) if rf_checks else False
+    if types_ok and (names_ok or not rf_before):
+        steps.append("GBuildRecordFields")
+    # type-name pattern
+    if len(type_tags) == 1:
+        pat = obs.patterns[next(iter(type_tags))]
+    else:
+        pat = obs.patterns.get("RE_VALID_RECORD_TYPE_NAME")
+        if pat is None:
+            raise Unsupported("_generate_record_class: cannot tell which pattern validates the type name")
+        notes.append("type-name pattern use not observed through a module attribute; RE_VALID_RECORD_TYPE_NAME assumed, validated "
+                     "by the battery")
+    body, end_pat, _ = regex_parts(pat.pattern, pat.flags, "type-name pattern")
+
+    def reaches(name):
+        d, err, log = obs.construct(name, [])
+        return any(e[0] == "exec" for e in log)
+    if not reaches("zqa"):
+        raise Unsupported("a benign type name does not reach exec")
+    end = _end_from_probes(reaches("zqa\n"), reaches("zqa;"))
+    _check_end_against_pattern(end, end_pat, "type-name pattern")
+    for s_ in _strings_upto(3, OBS_ALPHABET):
+        if s_ and reaches(s_) != _expected_match(pat, end, s_):
+            raise Unsupported("type name %r: reaches exec = %r, but the pattern says %r" % (s_, reaches(s_), _expected_match(pat, end, s_)))
+    if tname_ok and type_before_exec:
+        steps.append("GCheckTypeName")
+    steps.append("GExec")
+    return steps, bool(grc_check), bool(rf_check), bool(rf_before), "{| re_body := %s; re_end := %s |}" % (body, end)
+
+
+def loop_cross_check(base, notes):
+    """what cannot be observed: the loop that validates the field names has no early exit.  Looks at _generate_record_class and,
+    one level down, at the module-level functions it hands `fields` to."""
+    import types
+    fn = getattr(base._generate_record_class, "__wrapped__", base._generate_record_class)
+    node = _fn_ast(fn)
+    cands = [("_generate_record_class", node)]
+    exec_seen = False
+    for st in _body_wo_doc(node):
+        if _contains_dangerous(st):
+            exec_seen = True
+        if not exec_seen and _has_return(st):
+            raise Contradiction("_generate_record_class returns at line %d, before exec" % st.lineno)
+        if exec_seen:
+            break
+        for c in _calls(st):
+            nm = _call_name(c)
+            tgt = getattr(base, nm, None) if nm and "." not in nm else None
+            tgt = getattr(tgt, "__wrapped__", tgt)
+            if isinstance(tgt, types.FunctionType) and tgt.__module__ == base.__name__ and nm != "is_valid_field_name" \
+                    and any(isinstance(a, ast.Name) and a.id == "fields" for a in c.args):
+                cands.append((nm, _fn_ast(tgt)))
+    found = 0
+    for nm, nd in cands:
+        for loop in [x for x in ast.walk(nd) if isinstance(x, (ast.For, ast.While))]:
+            if any(_call_name(c) == "is_valid_field_name" for c in _calls(loop)):
+                found += 1
+                esc = _loop_escape(loop)
+                if esc is not None:
+                    raise Contradiction("%s: the loop that validates field names has `%s` at line %d (not every field is "
+                                        "checked)" % ((nm,) + esc))
+                if loop.orelse:
+                    raise Contradiction("%s: the loop that validates field names has an else clause" % nm)
+    if not found:
+        notes.append("shape not recognised: no explicit loop over the fields that calls is_valid_field_name; observed behaviour "
+                     "used (every declared name is checked on the probes)")
+
+
+def observe_fieldtype(base, obs, notes):
+    """fieldtype() on every whitelist entry, its list form, list-of-list form and a battery of non-entries, with importlib,
+    getattr and type shadowed -> (strips exactly one list suffix, whitelist decision precedes every resolution attempt)"""
+    raw = getattr(obs.orig_ft, "__wrapped__", obs.orig_ft)
+    wl = list(base.WHITELIST)
+    obs.shadow_resolvers()
+    try:
+        def run(p):
+            start = len(obs.log)
+            try:
+                r, err = raw(p), None
+            except Exception as e:  # noqa: BLE001
+                r, err = None, e
+            att = [e for e in obs.log[start:] if e[0] in ("import", "getattr", "type")]
+            return r, err, att
+        entries_ok = all(run(w)[1] is None for w in wl)
+        lists_ok = all(run(w + "[]")[1] is None for w in wl)
+        lol_refused = all(run(w + "[][]")[1] is not None and not run(w + "[][]")[2] for w in wl)
+        prefixes = sorted({".".join(w.split(".")[:k]) for w in wl for k in range(1, len(w.split(".")))})
+        non = ["nosuchtype", "os.system", "os", "sys", "typedlist", "FieldType", "RecordField", "__builtins__", "builtins.eval", "",
+               "[]", " string", "string ", "string\n", "String", "net.ip.ipaddress", "flow.record.fieldtypes.string", "..string",
+               "net..ipaddress", "string.__class__", "subprocess.Popen", "windows_path", "posix_path"] + prefixes + [x + "." for x in prefixes]
+        non = [x for x in non if x not in wl]
+        non = non + [x + "[]" for x in non if not x.endswith("[]")]
+        refused, attempted = True, False
+        for p_ in non:
+            if p_.endswith("[]") and p_[:-2] in wl:
+                continue
+            r, err, att = run(p_)
+            if err is None:
+                refused = False
+            if att:
+                attempted = True
+        if not entries_ok:
+            raise Unsupported("fieldtype() refuses a whitelist entry")
+        strips_one = lists_ok and lol_refused
+        before = refused and not attempted
+    finally:
+        obs.unshadow_resolvers()
+    try:
+        a_strip, a_before = fieldtype_facts(base)
+        if (a_strip, a_before) != (strips_one, before):
+            raise Contradiction("fieldtype: source says (strips one suffix, whitelist first) = %r, observed %r" % (
+                (a_strip, a_before), (strips_one, before)))
+    except Contradiction:
+        raise
+    except Unsupported as e:
+        notes.append("shape not recognised (fieldtype: %s); observed behaviour used" % str(e)[:80])
+    return strips_one, before
+
+
+def observe_routes(base, obs, notes):
+    """every untrusted route constructs exactly one RecordDescriptor from exactly the delivered definition"""
+    import json as _json
+
+    import msgpack
+
+    import flow.record.jsonpacker as jp
+    import flow.record.packer as pk
+    fields = [["string", "pa"], ["varint[]", "pb"]]
+
+    def probe(label, deliver):
+        name = "zq/route" + "".join(ch for ch in label if ch.isalnum())
+        start = len(obs.log)
+        try:
+            d = deliver(name)
+        except Exception as e:  # noqa: BLE001
+            raise Unsupported("route %s refuses a benign definition: %r" % (label, e))
+        inits = [e for e in obs.log[start:] if e[0] == "rd_init"]
+        ok = (len(inits) == 1 and isinstance(d, base.RecordDescriptor) and inits[0][1] == id(d) and len(inits[0]) == 4
+              and base.to_str(inits[0][2]) == name and [list(x) for x in inits[0][3]] == fields
+              and d.name == name and [list(x) for x in d.get_field_tuples()] == fields)
+        return ok
+    out = [
+        ("RecordDescriptor._unpack", probe("unpack", lambda n: base.RecordDescriptor._unpack(n, fields))),
+        ("packer.unpack_obj/RECORD_PACK_TYPE_DESCRIPTOR", probe("frame", lambda n: pk.RecordPacker().unpack(
+            pk.packb(msgpack.ExtType(0x0E, pk.packb((2, (n, fields)))))))),
+        ("jsonpacker.unpack_obj/recorddescriptor", probe("json", lambda n: jp.JsonRecordPacker().unpack(
+            _json.dumps({"_type": "recorddescriptor", "_data": [n, fields]})))),
+    ]
+    try:
+        from flow.record.adapter.avro import schema_to_descriptor
+        out.append(("avro.schema_to_descriptor", probe("avro", lambda n: schema_to_descriptor(
+            {"type": "record", "name": "x", "doc": _json.dumps([n, fields]), "fields": []}))))
+    except ImportError:
+        notes.append("avro adapter not importable: route judged from source")
+        out.append(("avro.schema_to_descriptor", dict(route_facts(base))["avro.schema_to_descriptor"]))
+    try:
+        src = dict(route_facts(base))
+        for k, v in out:
+            if v and not src.get(k, True):
+                notes.append("shape not recognised (route %s); observed behaviour used" % k)
+    except Unsupported as e:
+        notes.append("shape not recognised (routes: %s); observed behaviour used" % str(e)[:80])
+    return out
+
+
+def observe_constants(base, obs, notes):
+    """the text _generate_record_class puts into the holes that the model takes as constants: recovered from the source
+    handed to exec (tabs already expanded) by matching it against RECORD_CLASS_TEMPLATE"""
+    parts = list(string.Formatter().parse(base.RECORD_CLASS_TEMPLATE))
+    rx = "^"
+    seen = {}
+    for lit, field, _spec, _conv in parts:
+        rx += re.escape(lit.replace("\t", "    "))
+        if field is not None:
+            if field in seen:
+                rx += "(?P=%s)" % field
+            else:
+                seen[field] = True
+                rx += "(?P<%s>.*?)" % field
+    rx += "$"
+
+    def holes(fields):
+        d, err, log = obs.construct("zq/const%d" % len(obs.log), fields)
+        src = [e[1] for e in log if e[0] == "exec"]
+        m = re.match(rx, src[0], re.S) if err is None and len(src) == 1 else None
+        if not m:
+            raise Unsupported("the source handed to exec does not match RECORD_CLASS_TEMPLATE")
+        return m.groupdict()
+    kw = holes([("string", "class")])
+    plain = holes([("string", "pa")])
+    a, b = kw["init_code"], plain["init_code"]
+    k = 0
+    while k < min(len(a), len(b)) and a[-1 - k] == b[-1 - k]:
+        k += 1
+    tail = a[len(a) - k:]
+    if tail.startswith("\n"):
+        tail = tail[1:]
+    if not tail or not a.endswith(tail):
+        raise Unsupported("no common tail of the generated __init__ bodies")
+    got = dict(tail=tail, args=kw["args"], init_code=a[:len(a) - len(tail)], unpack_code=kw["unpack_code"])
+    try:
+        t_ast, kw_ast = code_constants(base)
+        want = dict(tail=t_ast, **kw_ast)
+        for key in got:
+            if want[key].replace("\t", "    ") != got[key]:
+                raise Contradiction("constant %s: source says %r, the generated code has %r" % (key, want[key][:60], got[key][:60]))
+    except Contradiction:
+        raise
+    except Unsupported as e:
+        notes.append("shape not recognised (%s); text recovered from the exec'd source used" % str(e)[:80])
+    return got
+
 
 def gen_names():
     import flow.record.base as base
-    fv = _FieldValidator(base)
-    steps, grc_check, type_re = grc_steps(base, fv)
-    rf_before, rf_check = recordfield_facts(base, fv)
-    strips_one, wl_before = fieldtype_facts(base)
+    notes = []
     execs, callers = call_sites(base)
-    routes = route_facts(base)
     pieces = template_pieces(base)
-    template_use(base)
-    tail, kwc = code_constants(base)
-
-    field_re = regex_fact(*fv.regex, where="RE_VALID_FIELD_NAME")
-    if type_re[2] == "nomatch":
-        type_fact = "{| re_body := Star (CC [(0, 1114111)]); re_end := EndNone |}"
-    else:
-        type_fact = regex_fact(*type_re, where="RE_VALID_RECORD_TYPE_NAME")
-
+    loop_cross_check(base, notes)
     reserved = list(base.RESERVED_FIELDS.items())
     if not all(isinstance(k, str) and isinstance(v, str) for k, v in reserved):
         raise Unsupported("RESERVED_FIELDS is not str -> str")
     wl = list(base.WHITELIST)
     if not all(isinstance(x, str) for x in wl):
         raise Unsupported("WHITELIST holds non-strings")
+    import flow.record.whitelist as wlmod
+    if base.WHITELIST is not wlmod.WHITELIST:
+        raise Unsupported("base.WHITELIST is not whitelist.WHITELIST")
+    obs = Observer(base)
+    try:
+        tree, field_re = observe_field_validator(base, obs, notes)
+        steps, grc_check, rf_check, rf_before, type_fact = observe_generate(base, obs, notes)
+        strips_one, wl_before = observe_fieldtype(base, obs, notes)
+        routes = observe_routes(base, obs, notes)
+        consts = observe_constants(base, obs, notes)
+    finally:
+        obs.close()
+    tostr = to_str_fact(base)
     plain = []
     ft = getattr(base.fieldtype, "__wrapped__", base.fieldtype)
     for t in wl:
@@ -761,13 +1076,18 @@ def gen_names():
     out = HEADER
     out += "From Coq Require Import List Bool NArith.\nImport ListNotations.\nFrom FR Require Import Regex Names.\nOpen Scope N_scope.\n\n"
     # (the pattern texts are not echoed into a comment: they contain the comment terminator)
+    out += "(* observed: is_valid_field_name decision table, check order / coverage in RecordDescriptor(), fieldtype() whitelist\n"
+    out += "   decision and resolution attempts, untrusted routes, generated-code constants; from source: exec sites, callers,\n"
+    out += "   no early exit in the validation loop; live values: patterns, RESERVED_FIELDS, WHITELIST, template *)\n"
+    for nt in notes:
+        out += "(* note: %s *)\n" % nt.replace("*)", "* )").replace("(*", "( *")
     out += "Definition facts : name_facts := {|\n"
     out += "  nf_field_re := %s;\n" % field_re
     out += "  nf_type_re := %s;\n" % type_fact
     out += "  nf_reserved := %s;\n" % clist([cpair(cstrN(k), cstrN(v)) for k, v in reserved])
     out += "  nf_whitelist := %s;\n" % clist([cstrN(x) for x in wl], sep=";\n    ")
     out += "  nf_keywords := %s;\n" % clist([cstrN(x) for x in keyword.kwlist], sep=";\n    ")
-    out += "  nf_field_valid := %s;\n" % fv.tree
+    out += "  nf_field_valid := %s;\n" % tree
     out += "  nf_grc_check_reserved := %s;\n" % cbool(grc_check)
     out += "  nf_rf_check_reserved := %s;\n" % cbool(rf_check)
     out += "  nf_gsteps := %s;\n" % clist(steps)
@@ -779,11 +1099,11 @@ def gen_names():
     out += "  nf_routes := %s;\n" % clist([cpair(cstrN(k), cbool(v)) for k, v in routes], sep=";\n    ")
     out += "  nf_template := %s;\n" % clist(pieces, sep=";\n    ")
     out += "  nf_plain_default_types := %s;\n" % clist([cstrN(x) for x in plain])
-    out += "  nf_init_tail := %s;\n" % cstrN(tail)
-    out += "  nf_kw_args := %s;\n" % cstrN(kwc["args"])
-    out += "  nf_kw_init := %s;\n" % cstrN(kwc["init_code"])
-    out += "  nf_kw_unpack := %s;\n" % cstrN(kwc["unpack_code"])
-    out += "  nf_to_str_surrogateescape := %s\n" % cbool(to_str_fact(base))
+    out += "  nf_init_tail := %s;\n" % cstrN(consts["tail"])
+    out += "  nf_kw_args := %s;\n" % cstrN(consts["args"])
+    out += "  nf_kw_init := %s;\n" % cstrN(consts["init_code"])
+    out += "  nf_kw_unpack := %s;\n" % cstrN(consts["unpack_code"])
+    out += "  nf_to_str_surrogateescape := %s\n" % cbool(tostr)
     out += "|}.\n"
     write_if_changed(GEN / "Gen_names.v", out)
 
